@@ -376,6 +376,8 @@ def replay (conjv : K → K) (half : K) (lines : List String) : IO Unit := do
   let mut lastDump : List String := []
   let mut lastBulkOk := false
   let mut mustBeUnchanged : Option String := none
+  -- the implementation's own index table, as dumped by the last `index` command (for the C18 oracle)
+  let mut implTbl : List (String × Nat × Nat) := []
   for (cmd, obs) in groups do
     idx := idx + 1
     let last := idx == groups.length
@@ -398,6 +400,56 @@ def replay (conjv : K → K) (half : K) (lines : List String) : IO Unit := do
       | none => pure ()
       lastDump := obs
       mustBeUnchanged := none
+    -- property oracle C18: the (label, orbital, spin) <-> index map is a bijection onto 0..N-1 with mutually inverse lookups
+    match cmd with
+    | ["index", _] =>
+      let sites := st.L.sites
+      let valid : List (String × Nat × Nat) := sites.flatMap fun x =>
+        (List.range x.norb).flatMap fun o => (List.range x.nspin).map fun sp => (x.label, o, sp)
+      let rows := obs.filterMap fun l => match Driver.toks l with
+        | ["o", "idx", i, lb, o, sp, back] => some (i.toNat!, (unhexLabel lb, o.toNat!, sp.toNat!), back.toNat!)
+        | _ => none
+      if !(obs.any (·.startsWith "o exc")) && !obs.isEmpty then
+        let n := match obs.head?.map Driver.toks with | some ["o", "nidx", n] => n.toNat! | _ => 0
+        let trip := rows.map (·.2.1)
+        let mut bad : List String := []
+        if n != valid.length then bad := bad ++ [s!"{n} indices for {valid.length} (site, orbital, spin) triples"]
+        if rows.length != n then bad := bad ++ [s!"{rows.length} table rows for {n} indices"]
+        for (i, t, back) in rows do
+          if back != i then bad := bad ++ [s!"getIndex(getInfo({i})) = {back}"]
+          if !(valid.contains t) then bad := bad ++ [s!"index {i} carries the invalid triple ({hexLabel t.1},{t.2.1},{t.2.2})"]
+        for t in valid do
+          if (trip.filter (· == t)).length != 1 then bad := bad ++ [s!"triple ({hexLabel t.1},{t.2.1},{t.2.2}) appears {(trip.filter (· == t)).length} times"]
+        if !bad.isEmpty then
+          IO.println s!"PROPFAIL[C18] cmd#{idx} index table is not a bijection: {"; ".intercalate (bad.take 4)}"
+          tally := tally.pfail
+        implTbl := trip
+    | ["getindex", lb, o, sp] =>
+      let t := (unhexLabel lb, o.toNat!, sp.toNat!)
+      if !implTbl.isEmpty && implTbl.contains t then
+        match obs.map Driver.toks with
+        | [["o", "ok", k]] =>
+          if implTbl[k.toNat!]? != some t then
+            IO.println s!"PROPFAIL[C18] cmd#{idx} getIndex({lb},{o},{sp}) = {k} but getInfo({k}) is another triple"
+            tally := tally.pfail
+        | _ =>
+          IO.println s!"PROPFAIL[C18] cmd#{idx} getIndex fails for the valid triple ({lb},{o},{sp}): {obs}"
+          tally := tally.pfail
+    | ["getinfo", i] =>
+      if !implTbl.isEmpty then
+        match implTbl[i.toNat!]?, obs.map Driver.toks with
+        | some t, [["o", "ok", lb, o, sp]] =>
+          if (unhexLabel lb, o.toNat!, sp.toNat!) != t then
+            IO.println s!"PROPFAIL[C18] cmd#{idx} getInfo({i}) differs from the table"
+            tally := tally.pfail
+        | some _, _ =>
+          IO.println s!"PROPFAIL[C18] cmd#{idx} getInfo({i}) fails for a valid index: {obs}"
+          tally := tally.pfail
+        | none, o =>
+          if !(obs.any (·.startsWith "o exc")) then
+            IO.println s!"PROPFAIL[C18] cmd#{idx} getInfo({i}) does not fail for an index outside 0..N-1: {o}"
+            tally := tally.pfail
+    | _ => pure ()
     -- property oracle C07: the default analysis (and the one with symmetries ignored) completes without error
     if (cmd == ["symm", "default"] || cmd == ["symm", "ignore"]) && obs.any (·.startsWith "o exc") then
       IO.println s!"PROPFAIL[C07] cmd#{idx} {" ".intercalate cmd} :: the symmetry analysis fails with {obs.getD 0 "?"} on this lattice"
